@@ -362,6 +362,126 @@ theorem failed_admitted_tx_never_overcharged (cfg : Cfg) (tx : Tx) (s : St) (e :
   simp [hsrc]
   omega
 
+/-! ### The mempool recheck: a change of the fee schedule between admission and execution
+
+CometBFT re-runs the mempool check (`CheckTx(Recheck)`) on every transaction still in its mempool
+after each commit.  `recheckTx` models it, `life` the whole history: admission under `cfg`, a
+committed block setting `cfg'`, recheck on the committed state, execution under `cfg'` if the
+transaction is still in the mempool. -/
+
+/-- A transaction the recheck evicts leaves the mempool state untouched: never charged. -/
+theorem recheck_reject_never_charged (cfg : Cfg) (tx : Tx) (s : St) (e : Err)
+    (h : (recheckTx cfg tx s).2 = some e) : (recheckTx cfg tx s).1 = s :=
+  mempool_reject_never_charged cfg _ s e h
+
+/-- What surviving a recheck guarantees: the declared fee covers, per denom, the base fee and the
+top-level messages' additional fees under the configuration in force AT THE RECHECK (not the one
+the transaction was first admitted under). -/
+theorem rechecked_fee_covers_base_and_top_level (cfg' : Cfg) (tx : Tx) (s : St)
+    (hfee : ∀ d, 0 ≤ Coins.amountOf tx.fee d)
+    (h : (recheckTx cfg' tx s).2 = none) (d : Denom) :
+    Coins.amountOf (baseFee cfg'.floor tx.gas) d + totalIncurred d (topIncurred cfg' tx.top) ≤
+      Coins.amountOf tx.fee d :=
+  admitted_fee_covers_base_and_top_level cfg' { tx with oogCheck := tx.oogRecheck } s hfee h d
+
+/-- **those the mempool check rejects must be rejected and never charged.**  A declared fee that
+is not `admissible` (in some denom below floor × gas + the top-level messages' fees) is refused
+both on arrival and on any recheck, against whatever configuration is then in force, and the
+mempool state is not touched. -/
+theorem under_declared_fee_is_rejected (cfg : Cfg) (tx : Tx) (s : St)
+    (hfee : ∀ d, 0 ≤ Coins.amountOf tx.fee d) (ds : List Denom)
+    (h : admissible cfg tx.fee tx.gas tx.top ds = false) :
+    ((checkTx cfg tx s).2 ≠ none ∧ (checkTx cfg tx s).1 = s) ∧
+    ((recheckTx cfg tx s).2 ≠ none ∧ (recheckTx cfg tx s).1 = s) := by
+  have key : ∀ tx' : Tx, tx'.fee = tx.fee → tx'.gas = tx.gas → tx'.top = tx.top →
+      (checkTx cfg tx' s).2 ≠ none ∧ (checkTx cfg tx' s).1 = s := by
+    intro tx' h1 h2 h3
+    have hne : (checkTx cfg tx' s).2 ≠ none := by
+      intro hadm
+      have hcov : admissible cfg tx.fee tx.gas tx.top ds = true := by
+        unfold admissible covered
+        rw [List.all_eq_true]
+        intro d _
+        have := admitted_fee_covers_base_and_top_level cfg tx' s (by rw [h1]; exact hfee) hadm d
+        rw [h1, h2, h3] at this
+        simp only [topIncurred]
+        exact decide_eq_true this
+      rw [hcov] at h; cases h
+    refine ⟨hne, ?_⟩
+    cases he : (checkTx cfg tx' s).2 with
+    | none => exact absurd he hne
+    | some e => exact mempool_reject_never_charged cfg tx' s e he
+  exact ⟨key tx rfl rfl rfl, key { tx with oogCheck := tx.oogRecheck } rfl rfl rfl⟩
+
+/-- What "executed from the mempool" means in `life` (no forced inclusion): the run is the
+delivery on the committed state under the configuration in force at execution, and the
+transaction passed every mempool check it went through — so every single-transaction theorem
+above applies to it with that configuration. -/
+theorem life_run_spec (cfg cfg' : Cfg) (re : Bool) (tx : Tx) (s : St) (r : Run)
+    (hr : (life cfg cfg' re false tx s).run = some r) :
+    (checkTx cfg tx s).2 = none ∧
+    ((re = false ∧ r = deliverTx cfg tx s) ∨
+     (re = true ∧ r = deliverTx cfg' tx s ∧ (recheckTx cfg' tx s).2 = none)) := by
+  unfold life at hr
+  cases hc : (checkTx cfg tx s) with
+  | mk cs cerr =>
+    simp only [hc] at hr
+    cases cerr with
+    | some e => simp at hr
+    | none =>
+      refine ⟨rfl, ?_⟩
+      cases re with
+      | false => simp at hr; exact Or.inl ⟨rfl, hr.symm⟩
+      | true =>
+        cases hrc : (recheckTx cfg' tx s) with
+        | mk rs rerr =>
+          simp only [hrc, if_true] at hr
+          cases rerr with
+          | some e => simp at hr
+          | none => simp at hr; exact Or.inr ⟨rfl, hr.symm, rfl⟩
+
+/-- A transaction evicted by the recheck is not executed and was never charged. -/
+theorem evicted_tx_never_executed (cfg cfg' : Cfg) (tx : Tx) (s : St) (e : Err)
+    (hadm : (checkTx cfg tx s).2 = none) (hev : (recheckTx cfg' tx s).2 = some e) :
+    (life cfg cfg' true false tx s).run = none ∧ (life cfg cfg' true false tx s).inMempool = false ∧
+    (life cfg cfg' true false tx s).recheckSt = s := by
+  have hst := recheck_reject_never_charged cfg' tx s e hev
+  unfold life
+  cases hc : (checkTx cfg tx s) with
+  | mk cs cerr =>
+    rw [hc] at hadm
+    simp only at hadm
+    subst hadm
+    cases hrc : (recheckTx cfg' tx s) with
+    | mk rs rerr =>
+      rw [hrc] at hev hst
+      simp only at hev hst
+      subst hev
+      simp [hst]
+
+/-- **never more than declared**, over the whole mempool history: whatever configuration the
+transaction was admitted under and whatever the committed block changed it to, a transaction
+executed from the mempool that fails costs the paying account at most its declared fee (it costs
+exactly floor × gas under the configuration in force at execution, by
+`failed_tx_charges_base_fee_only`; on success exactly the declared fee, by
+`successful_tx_charges_declared_fee`). -/
+theorem mempool_tx_never_charged_more_than_declared (cfg cfg' : Cfg) (re : Bool) (tx : Tx) (s : St)
+    (r : Run) (e : Err) (hfee : ∀ d, 0 ≤ Coins.amountOf tx.fee d)
+    (hsrc : tx.from ≠ cfg.collector) (hsrc' : tx.from ≠ cfg'.collector)
+    (hr : (life cfg cfg' re false tx s).run = some r) (hf : r.outcome = .failed e) (d : Denom) :
+    s.ledger.bal tx.from d - Coins.amountOf tx.fee d ≤ r.final.ledger.bal tx.from d := by
+  obtain ⟨hadm, h | h⟩ := life_run_spec cfg cfg' re tx s r hr
+  · obtain ⟨_, rfl⟩ := h
+    exact failed_admitted_tx_never_overcharged cfg tx s e hfee hadm hf hsrc d
+  · obtain ⟨_, rfl, hre⟩ := h
+    obtain ⟨h1, _, _, _⟩ := failed_tx_charges_base_fee_only cfg' tx s e hf
+    rw [h1 tx.from d]
+    unfold feeDeltaOnFailure
+    have := admitted_base_fee_le_declared cfg' { tx with oogCheck := tx.oogRecheck } s hfee hre d
+    simp [hsrc']
+    simp at this
+    omega
+
 /-! ### Fee grants -/
 
 /-- A limited `BasicAllowance` is charged exactly the fee it is used for, never overdrawn, and is
@@ -463,6 +583,21 @@ example : (deliverTx exCfg { exTx with granter := some "G" } exStG).outcome.isOk
     (match (deliverTx exCfg { exTx with granter := some "G" } exStG).final.allow with | .none => true | _ => false) = true := by
   decide
 
+-- the mempool history: admitted with the fee exactly at what `exCfg` requires; a committed block
+-- raises the floor price from 2 to 3: the recheck evicts it, it is not executed, never charged
+def exCfgUp : Cfg := { exCfg with floor := ("nhash", 3) }
+example : (life exCfg exCfgUp true false exTx exSt).check.isNone = true ∧
+    (life exCfg exCfgUp true false exTx exSt).recheck = some (some .fee) ∧
+    (life exCfg exCfgUp true false exTx exSt).inMempool = false ∧
+    (life exCfg exCfgUp true false exTx exSt).run.isNone = true := by decide
+example : admissible exCfgUp exTx.fee exTx.gas exTx.top ["nhash", "hotdog"] = false := by decide
+-- … lowering it instead keeps it in the mempool and it is executed under the new configuration
+def exCfgDown : Cfg := { exCfg with floor := ("nhash", 1) }
+example : (life exCfg exCfgDown true false exTx exSt).inMempool = true ∧
+    ((life exCfg exCfgDown true false exTx exSt).run.map (·.outcome.isOk)) = some true := by decide
+example : ∀ d, 0 ≤ Coins.amountOf exTx.fee d := by
+  intro d; simp only [exTx, Coins.amountOf]; split_ifs <;> omega
+
 end Examples
 
 /-! ### Observation outside the property's quantifier
@@ -474,7 +609,10 @@ mempool check REJECTS but that a proposer includes in a block anyway is still ch
 it declared — and then fails in the sweep.  Reproduced on the real app by the last two lines of
 corpus/C08/txfee.basic.ops (declared `1nhash` resp. nothing, charged `200000nhash` resp.
 `7620000000nhash`).  The property quantifies over admitted transactions only, so this is not a
-violation of C08; it is recorded because "never more than declared" stops at the mempool. -/
+violation of C08; it is recorded because "never more than declared" stops at the mempool.
+The same holds for a transaction the RECHECK evicted after the floor price was raised and that a
+proposer includes anyway (corpus/C08/txfee.recheck.ops line 2: declared `200000nhash`, charged
+`600000nhash`). -/
 theorem unadmitted_tx_is_charged_more_than_declared :
     ∃ (cfg : Cfg) (tx : Tx) (s : St),
       (match (checkTx cfg tx s).2 with | some .fee => true | _ => false) = true ∧
